@@ -74,6 +74,65 @@ for kind, nm in enumerate(("iter", "iter_mut")):
           "any WF arena of N=%d slots and any injected stack of <= %d entries satisfying StackInv; one next(); probe slot; unwind %d" % (n, k, n + 2),
           ["Iter::next" if kind == 0 else "IterMut::next"], cost=cost)
 
+# ------------------------------------------------------------------ equality, clone, rebuild, retain
+h("eq_map_n2", 6, "misc::eq_map::<_, 2>", ["C19", "C20"], "quick",
+  "two WF arenas of N=2 slots each; `==` and `!=` through the real iter() constructors (allocator model for the growing stacks); %s; unwind 6" % P8,
+  ["<PrefixMap as PartialEq>::eq", "PrefixMap::iter", "Iter::next", "Iterator::eq"], cost=300, stub="growmodel")
+h("eq_map_n3", 7, "misc::eq_map::<_, 3>", ["C19"], "thorough", "two WF arenas of N=3 slots each; `==`/`!=`; unwind 7",
+  ["<PrefixMap as PartialEq>::eq", "PrefixMap::iter", "Iter::next"], cost=1500, stub="growmodel")
+h("eq_set_n2", 6, "misc::eq_set::<_, 2>", ["C19", "C20"], "quick",
+  "two WF arenas (T=()) of N=2 slots each; PrefixSet `==`; unwind 6", ["<PrefixSet as PartialEq>::eq", "set::Iter::next"], cost=300, stub="growmodel")
+h("clone_n3", 5, "misc::clone_indep::<_, 3>", ["C19", "C04", "C20"], "quick",
+  "any WF arena of N=3 slots; clone(), then writes/removals on either side; read-back of both arenas; unwind 5",
+  ["<PrefixMap as Clone>::clone", "<Table as Clone>::clone", "PrefixMap::get_mut", "PrefixMap::remove_keep_tree"], cost=100)
+h("collect2", 8, "misc::collect2", ["C01", "C04", "C18", "C19", "C20"], "quick",
+  "bounded history from new(): FromIterator over two symbolic (prefix, value) pairs in both orders, lookups, `==`; real Vec growth through the allocator model; %s; unwind 8" % P8,
+  ["<PrefixMap as FromIterator>::from_iter", "PrefixMap::new", "PrefixMap::insert", "<PrefixMap as PartialEq>::eq"], cost=400, stub="growmodel")
+for n, f, tier, cost, mem in ((2, 1, "quick", 200, 12), (3, 1, "thorough", 2400, 28)):
+    h("retain_n%d" % n, n + 2, "misc::retain::<_, %d, %d>" % (n, f), ["C10", "C01", "C04", "C15", "C16", "C20"], tier,
+      "%s; retain with a predicate returning the k-th of %d symbolic decisions and observing the map at every invocation (models a panic there); recursion depth <= %d; unwind %d" % (pre_txt(n, f), n, n, n + 2),
+      ["PrefixMap::retain", "PrefixMap::_retain", "PrefixMap::_remove_node"], cost=cost, mem_gb=mem)
+
+for kind, (nm, props, fns) in enumerate(CH_KINDS):
+    for n, tier, cost in ((3, "quick", 60), (4, "thorough", 200)):
+        h("children_init%d_n%d" % (kind, n), n + 2, "iters::children_init::<_, %d, %d>" % (kind, n), ["C10", "C20"], tier,
+          "any WF arena of N=%d slots; any selector; the start stack of %s read back (Init obligation; the traversal from a one-entry stack is C03 Step); unwind %d" % (n, nm, n + 2),
+          fns[:2], cost=cost)
+for n, tier, cost in ((3, "quick", 300), (4, "thorough", 1500)):
+    h("split_interleave_n%d" % n, 2 * n + 2, "misc::split_interleave::<_, %d>" % n, ["C14", "C11", "C13", "C20"], tier,
+      "any WF arena of N=%d slots, any node with two children; split(), two IterMut advanced by %d symbolic scheduling decisions, then drained; arena read-back vs sequential result; unwind %d" % (n, 2 * n, 2 * n + 2),
+      ["TrieViewMut::split", "<TrieViewMut as IntoIterator>::into_iter", "IterMut::next", "Table::get_mut"], cost=cost, stub="growmodel")
+h("canon_unique_n3", 5, "misc::canon_unique::<_, 3>", ["C15"], "quick",
+  "specification-level lemma over two arenas of N=3 slots (no code under test): CANON + equal key sets => equal node sets", [], cost=30)
+
+# ------------------------------------------------------------------ C20: handle sequences, callbacks
+h("occ_seq_plain_n2", 4, "c20::occ_seq::<_, false, 2>", ["C20", "C04"], "quick",
+  "any WF arena of N=2 slots; entry(p) occupied, then two consecutive calls out of {get,get_mut,key} x {get,get_mut,key,remove,insert}; unwind 4",
+  ["PrefixMap::entry", "OccupiedEntry::{get,get_mut,key,remove,insert}"], cost=60)
+h("occ_seq_after_remove_n2", 4, "c20::occ_seq::<_, true, 2>", ["C20", "C04"], "quick",
+  "any WF arena of N=2 slots; entry(p) occupied, remove() followed by one of {get,get_mut,key,remove,insert}; unwind 4",
+  ["PrefixMap::entry", "OccupiedEntry::{get,get_mut,key,remove,insert}"], cost=60)
+h("view_set_then_remove_n2", 4, "c20::view_set_then_remove::<_, 2>", ["C20", "C04", "C01", "C13"], "quick",
+  "any WF arena of N=2 slots; TrieViewMut::set on a value-less node, then PrefixMap::remove of that key; unwind 4",
+  ["TrieViewMut::set", "PrefixMap::remove", "PrefixMap::_remove_node"], cost=60)
+for op, nm in enumerate(("or_insert_with", "insert_with", "and_modify")):
+    h("entry_callback%d_n2" % op, 4, "c20::entry_callback::<_, %d, 2>" % op, ["C20", "C01"], "quick",
+      "any WF arena of N=2 slots; Entry::%s with a closure that compares the whole arena with the pre-state when invoked (models a panic at that point); unwind 4" % nm,
+      ["PrefixMap::entry", "Entry::" + nm, "VacantEntry::_insert"], cost=60)
+
+# ------------------------------------------------------------------ C17: prefix algebra, full width
+ALG = [("u8", "(u8, u8)", 1, True), ("u16", "(u16, u8)", 2, True), ("u32", "(u32, u8)", 4, True), ("u64", "(u64, u8)", 8, True),
+       ("u128", "(u128, u8)", 16, True), ("usize", "(usize, u8)", 8, True),
+       ("ipv4net", "ipnet::Ipv4Net", 4, True), ("ipv6net", "ipnet::Ipv6Net", 16, True),
+       ("ipv4network", "ipnetwork::Ipv4Network", 4, True), ("ipv6network", "ipnetwork::Ipv6Network", 16, True),
+       ("ipv4cidr", "cidr::Ipv4Cidr", 4, False), ("ipv6cidr", "cidr::Ipv6Cidr", 16, False),
+       ("ipv4inet", "cidr::Ipv4Inet", 4, True), ("ipv6inet", "cidr::Ipv6Inet", 16, True)]
+for nm, ty, nbytes, keeps in ALG:
+    h("alg_" + nm, 18, "algebra::algebra::<_, %s, %d, %s>" % (ty, nbytes, str(keeps).lower()), ["C17", "C20"], "quick",
+      "three arbitrary prefixes of type %s (every %d-bit representation incl. host bits, every length 0..=%d) and every bit index 0..=255: the whole input space, no loop in the code under test (unwind 18 only bounds the harness' byte assembly)" % (ty, nbytes * 8, nbytes * 8),
+      ["<%s as Prefix>::{from_repr_len,repr,prefix_len,mask,zero,contains,longest_common_prefix,is_bit_set,eq}" % ty, "prefix::mask_from_prefix_len"],
+      cost=40, stub="nostub", checks="default")
+
 # ------------------------------------------------------------------ set operations (Init + Step)
 FAMS = [("union", 0, "C05", ["TrieView::union", "Union::next", "union::{next_indices,next_indices_first_l,next_indices_first_r,extend_lpm}"],
          ["TrieViewMut::union_mut", "UnionMut::next", "union::next_indices*"]),
@@ -88,12 +147,25 @@ for fam, code, cprop, fro, fmu in FAMS:
         m = "mut" if mut else "ro"
         props = [cprop, "C18", "C20"] + (["C13", "C14"] if mut else []) + (["C08"] if fam in ("union", "diff") else [])
         for n, k, tier, cost in ((2, 1, "quick", 200), (3, 2, "thorough", 1500)):
-            h("%s_init_%s_n%d" % (fam, m, n), n + 3, "setops::run::<_, %d, %s, true, %d, 1, 3>" % (code, str(mut).lower(), n), props, tier,
+            h("%s_init_%s_n%d" % (fam, m, n), n + 3, "setops::run::<_, %d, %s, true, %s, 255, %d, 1, 3>" % (code, str(mut).lower(), str(fam == "diff" or (fam == "union" and not mut)).lower(), n), props, tier,
               "two WF arenas of N=%d slots each, any pair of view locations (node or virtual, any roots); the real constructor; stack read back; entry probes; %s; unwind %d" % (n, P8, n + 3),
               (fmu if mut else fro)[:1] + (fmu if mut else fro)[2:], cost=cost // 2, stub="growmodel")
-            h("%s_step_%s_n%d" % (fam, m, n), n + 3, "setops::run::<_, %d, %s, false, %d, %d, %d>" % (code, str(mut).lower(), n, k, k + 3), props, tier,
+            h("%s_step_%s_n%d" % (fam, m, n), n + 3, "setops::run::<_, %d, %s, false, %s, 255, %d, %d, %d>" % (code, str(mut).lower(), str(fam == "diff" or (fam == "union" and not mut)).lower(), n, k, k + 3), props, tier,
               "two WF arenas of N=%d slots each, any pair of view locations, any injected stack of <= %d entries satisfying StackInv; one next(); stack read back; entry probes; %s; unwind %d" % (n, k, P8, n + 3),
               (fmu if mut else fro)[1:], cost=cost, stub="growmodel")
+
+# Union / UnionMut Step is too large as one query (all five arms x several loop bodies): one instance per
+# kind of the top entry, the top entry yields at once, exactly one body of next() (per-loop unwind bound).
+UKINDS = ["Both", "FirstL", "FirstR", "OnlyL", "OnlyR"]
+for mut in (False, True):
+    m = "mut" if mut else "ro"
+    for kind, kn in enumerate(UKINDS):
+        for n, tier, cost in ((2, "quick", 250), (3, "thorough", 1500)):
+            h("union_step%d_%s_n%d" % (kind, m, n), n + 3, "setops::run::<_, 0, %s, false, %s, %d, %d, 1, 4>" % (str(mut).lower(), str(not mut).lower(), kind, n),
+              ["C05", "C18", "C20"] + (["C13", "C14"] if mut else ["C08"]), tier,
+              "two WF arenas of N=%d slots each, any pair of view locations, a one-entry stack whose entry is %s(l,r) (any l,r satisfying StackInv) and yields an item at once; exactly one loop body of next(); %s; unwind %d, next() loop 1" % (n, kn, P8, n + 3),
+              ["UnionMut::next" if mut else "Union::next", "union::{next_indices,next_indices_first_l,next_indices_first_r,extend_lpm}"], cost=cost, stub="growmodel",
+              unwindset=[{"file": "trieview/union.rs", "func": ("UnionMut<" if mut else "Union<") + ".*Iterator>::next", "bound": 1}])
 
 # ------------------------------------------------------------------ views
 VIEW_LOC = "any view location: Node(i) for reachable i or Virtual(p,i) with p strictly covering node i"
@@ -179,6 +251,50 @@ for g in ("ret", "len", "shape", "slots"):
 h("selftest_fail", 5, "obs::selftest_fail::<_, 2>", ["SELFTEST"], "quick",
   "N=2; deliberately false assertion to exercise playback+replay", ["PrefixMap::get"], cost=10)
 
+H[:] = [x for x in H if not (x["name"].startswith("union_step_") and True)]
+
+# ------------------------------------------------------------------ quick tier: curated per property
+# (the thorough tier of a property runs every harness that lists it)
+QUICK = {
+    "C01": ["obs_get_n3", "obs_get_mut_n3", "obs_set_n3", "collect2", "insert_ret_n2", "remove_ret_n3", "rkt_ret_n3", "rmchildren_ret_n3",
+            "clear_n3", "entry_top[0124]_ret_n2", "entry_handle[012]_ret_n2", "retain_n2"],
+    "C02": ["obs_lpm_n3", "obs_lpm_mut_n3", "obs_cover_n3", "obs_set_n3"],
+    "C03": ["whole_iter_n3", "whole_iter_mut_n3", "whole_into_iter_n3", "whole_keys_values_clone_n3", "step_iter_n3", "step_iter_mut_n3"],
+    "C04": ["insert_len_n2", "remove_len_n3", "rkt_len_n3", "rmchildren_len_n3", "clear_n3", "entry_top[013]_len_n2", "entry_handle[012]_len_n2",
+            "retain_n2", "clone_n3", "collect2", "view_access[23]_n3", "occ_seq_plain_n2", "obs_set_n3"],
+    "C05": ["union_init_(ro|mut)_n2", "union_step[0-4]_(ro|mut)_n2"],
+    "C06": ["inter_(init|step)_(ro|mut)_n2"],
+    "C07": ["(diff|covdiff)_(init|step)_(ro|mut)_n2"],
+    "C08": ["union_init_ro_n2", "diff_init_(ro|mut)_n2", "diff_step_(ro|mut)_n2", "union_step[0-4]_ro_n2"],
+    "C09": ["obs_spm_n3", "obs_cover_n3", "obs_cover_proj_n2", "obs_set_n3"],
+    "C10": ["children_n3", "children_init[012]_n3", "rmchildren_(ret|len|slots)_n3", "retain_n2"],
+    "C11": ["view_at_(ro|mut)_n3", "view_nav_(ro|mut)_n3", "view_find[03]_ro_n3", "view_access[02]_n3"],
+    "C12": ["view_find[0-3]_(ro|mut)_n3"],
+    "C13": ["obs_get_mut_n3", "obs_lpm_mut_n3", "whole_iter_mut_n3", "step_iter_mut_n3", "view_access[0-3]_n3", "inter_step_mut_n2",
+            "covdiff_step_mut_n2", "diff_step_mut_n2", "union_step[03]_mut_n2"],
+    "C14": ["whole_iter_mut_n3", "step_iter_mut_n3", "view_nav_mut_n3", "view_find[02]_mut_n3", "view_access0_n3", "inter_step_mut_n2",
+            "union_step0_mut_n2", "obs_get_mut_n3", "split_interleave_n3"],
+    "C15": ["insert_shape_n2", "remove_shape_n[34]", "rkt_shape_n3", "rmchildren_shape_n3", "clear_n3", "entry_top[01]_shape_n2",
+            "entry_handle1_shape_n2", "retain_n2", "view_access2_n3", "canon_unique_n3"],
+    "C16": ["insert_slots_n2", "remove_slots_n[34]", "rkt_slots_n3", "rmchildren_slots_n3", "clear_n3", "entry_top[01]_slots_n2",
+            "entry_handle1_slots_n2", "retain_n2"],
+    "C17": ["alg_.*"],
+    "C18": ["obs_get_n3", "obs_lpm_n3", "obs_set_n3", "insert_ret_n2", "entry_top[01]_ret_n2", "entry_handle0_ret_n2", "whole_iter_n3",
+            "view_at_ro_n3", "view_access2_n3", "union_step[02]_ro_n2", "inter_step_ro_n2", "collect2"],
+    "C19": ["eq_map_n2", "eq_set_n2", "clone_n3", "collect2"],
+    "C20": ["alg_u8", "alg_u32", "alg_u128", "alg_ipv4net", "obs_get_n3", "obs_cover_n3", "insert_ret_n2", "remove_ret_n3", "rmchildren_slots_n3",
+            "entry_handle1_ret_n2", "whole_iter_n3", "view_find0_ro_n3", "inter_step_ro_n2", "retain_n2", "occ_seq_plain_n2",
+            "occ_seq_after_remove_n2", "view_set_then_remove_n2", "entry_callback[012]_n2"],
+    "SELFTEST": ["selftest_fail"],
+}
+import re as _re
+for x in H:
+    x["quick_for"] = [p for p in x["props"] if any(_re.fullmatch(pat, x["name"]) for pat in QUICK.get(p, []))]
+for p, pats in QUICK.items():
+    for pat in pats:
+        if not any(_re.fullmatch(pat, x["name"]) and p in x["props"] for x in H):
+            print("WARNING: quick pattern %s of %s matches no harness that lists the property" % (pat, p))
+
 REG = {
     "assumptions": {
         "*": [
@@ -220,7 +336,7 @@ def manifest():
     props = [json.loads(l)["id"] for l in open(os.path.join(ROOT, "properties.jsonl"))]
     checks, na = [], []
     for p in props:
-        quick = [x for x in H if p in x["props"] and x["tier"] == "quick"]
+        quick = [x for x in H if p in x["quick_for"]]
         if p in CLAIM_TEXT and quick:
             text, ref = CLAIM_TEXT[p]
             checks.append({
